@@ -57,7 +57,7 @@ func (r *Rand) Intn(n int) int {
 	}
 	return int(r.U64() % uint64(n))
 }
-func (r *Rand) Bool() bool         { return r.U64()&1 == 1 }
+func (r *Rand) Bool() bool           { return r.U64()&1 == 1 }
 func (r *Rand) Chance(p, q int) bool { return r.Intn(q) < p }
 func (r *Rand) Pick(ss []string) string {
 	return ss[r.Intn(len(ss))]
